@@ -1,4 +1,60 @@
-import Kap.Spec.C04
+/-
+C04 — property theorems (every `theorem` here is a proof obligation, axiom-audited by `bin/check C04`).
+Statement (properties.jsonl): a lambda expression evaluated against a point yields the value of TICKscript's
+typed semantics (documented operator × type matrix, no implicit int/float coercion in arithmetic, AND/OR
+short circuit, …; type mismatch / missing field / arithmetic fault = error for that point), and the result
+depends only on the expression, the point and the earlier points of the same group — never on which field
+types or other groups the compiled expression saw before.
+-/
+import Kap.Proofs.C04
 import Kap.Gen.C04
 namespace Kap.Props.C04
+open Kap.C04
+
+/-! ### The operator table, regenerated from `evaluation_funcs.go` on every run -/
+
+/-- Every extracted entry is the canonical one for its key (decided on the regenerated table). -/
+theorem table_canonical : Gen.table.all canon = true := by decide
+
+/-- **table_sound.** For every key `(op, lt, rt)` of the table as it is in the source now: the entry
+evaluates the left operand with the `EvalX` of `lt` and the right one with that of `rt`, AND/OR (and only
+they) short-circuit, the declared return type is the documented result type, and on EVERY pair of values of
+these types the entry computes exactly the reference operator `refBinop` — for any float arithmetic and any
+regex matcher. -/
+theorem table_sound {F : Type} (ops : FOps F) (reMatch : String → String → Option Bool) :
+    ∀ e ∈ Gen.table,
+      e.lm = e.lt ∧ e.rm = e.rt ∧ binType e.op e.lt e.rt = some e.ret ∧
+      (e.shape = .andSC ↔ e.op = .and) ∧ (e.shape = .orSC ↔ e.op = .or) ∧ e.shape ≠ .unknown ∧
+      ∀ vl vr : Value F, vl.ty = e.lt → vr.ty = e.rt →
+        e.compute ops reMatch vl vr = refBinop ops reMatch e.op vl vr := by
+  intro e he
+  have hc : canon e = true := List.all_eq_true.mp table_canonical e he
+  have hs := hc
+  simp only [canon, Bool.and_eq_true, beq_iff_eq] at hs
+  obtain ⟨⟨⟨⟨⟨h1, h2⟩, _⟩, h4⟩, h5⟩, _⟩ := hs
+  refine ⟨h1, h2, h4, ?_, ?_, ?_, fun vl vr hl hr => (canon_sound ops reMatch e hc vl vr hl hr).1⟩
+  · rw [h5]; cases e.op <;> simp
+  · rw [h5]; cases e.op <;> simp
+  · rw [h5]; cases e.op <;> simp
+
+/-- No key occurs twice, so `lookup` finds THE entry of a key. -/
+theorem table_keys_unique : (Gen.table.map (fun e => (e.op, e.lt, e.rt))).Nodup := by decide
+
+/-- **table_complete_no_coercion.** The key set of the table is exactly the documented matrix `binType`:
+an operator applies to a pair of types iff the documentation says so, with the documented result type. -/
+theorem table_complete (op : BOp) (lt rt : Ty) :
+    (lookup Gen.table op lt rt).map (·.ret) = binType op lt rt := by
+  cases op <;> cases lt <;> cases rt <;> decide
+
+/-- … in particular there is no arithmetic between an int and a float in either order. -/
+theorem no_int_float_arithmetic :
+    ∀ op ∈ [BOp.plus, .minus, .mult, .div, .mod],
+      lookup Gen.table op .int .float = none ∧ lookup Gen.table op .float .int = none := by decide
+
+/-- No entry panics on operands of its key types (zero divisors of `/` and `%` are guarded). -/
+theorem table_no_trap {F : Type} (ops : FOps F) (reMatch : String → String → Option Bool) :
+    ∀ e ∈ Gen.table, ∀ vl vr : Value F, vl.ty = e.lt → vr.ty = e.rt → e.compute ops reMatch vl vr ≠ .trap := by
+  intro e he vl vr hl hr
+  exact (canon_sound ops reMatch e (List.all_eq_true.mp table_canonical e he) vl vr hl hr).2
+
 end Kap.Props.C04
